@@ -129,7 +129,7 @@ fn build(seed: u64, dir: &Path) -> Result<Vec<State>, String> {
 #[derive(Clone, Debug)]
 pub struct Job {
     pub file: String, // relative path
-    pub kind: u8,     // 0 truncate, 1 byte xor 0xff, 2 bit
+    pub kind: u8,     // 0 truncate, 1 byte xor 0xff, 2 bit, 3 range of zeros (length class in `bit`: 64 B, 512 B, 4 KiB, 32 KiB)
     pub at: u64,
     pub bit: u8,
 }
@@ -174,6 +174,20 @@ fn plan(dir: &Path, tier: Tier, r: &mut Rng) -> Vec<Job> {
         for p in &pos {
             jobs.push(Job { file: f.clone(), kind: 1, at: *p, bit: 0 });
             jobs.push(Job { file: f.clone(), kind: 2, at: *p, bit: r.below(8) as u8 });
+        }
+        // ranges that read as zeros (lost writes): at every 4 KiB boundary a short and a long
+        // one, whole 32 KiB blocks, and a few at random positions
+        let mut z = 0u64;
+        while z < len {
+            jobs.push(Job { file: f.clone(), kind: 3, at: z, bit: 0 });
+            jobs.push(Job { file: f.clone(), kind: 3, at: z, bit: 2 });
+            if z % 32768 == 0 {
+                jobs.push(Job { file: f.clone(), kind: 3, at: z, bit: 3 });
+            }
+            z += 4096;
+        }
+        for _ in 0..tier.pick(6, 40) {
+            jobs.push(Job { file: f.clone(), kind: 3, at: r.below(len), bit: r.below(3) as u8 });
         }
         if f.starts_with("wal/") {
             // every bit of every record header of the commit-log tail (crc | length | type)
@@ -306,7 +320,12 @@ pub fn shard_main(args: &[String]) -> i32 {
         match job.kind {
             0 => bytes.truncate(job.at as usize),
             1 => bytes[job.at as usize] ^= 0xff,
-            _ => bytes[job.at as usize] ^= 1 << job.bit,
+            2 => bytes[job.at as usize] ^= 1 << job.bit,
+            _ => {
+                let n = [64usize, 512, 4096, 32768][(job.bit as usize).min(3)];
+                let end = (job.at as usize + n).min(bytes.len());
+                bytes[(job.at as usize).min(end)..end].iter_mut().for_each(|b| *b = 0);
+            }
         }
         let _ = std::fs::write(&fp, &bytes);
         // acceptable states: the full state; for commit-log alterations also every commit
@@ -359,7 +378,11 @@ pub fn shard_main(args: &[String]) -> i32 {
                 let _ = std::fs::remove_file(work.join("LOCK"));
                 let _ = std::fs::write(&fp, &bytes);
                 let strict = Cfg { absolute_consistency: true, ..cfg.clone() };
-                let only_full: Vec<&State> = vec![&full];
+                // Zeros that reach the end of the segment cannot be told from a torn tail (a
+                // file extended without its data reaching the disk), which every mode reads
+                // as the end of the log: there the commit prefixes stay acceptable (C12).
+                let zeros_to_eof = job.kind == 3 && bytes[(job.at as usize).min(bytes.len())..].iter().all(|b| *b == 0);
+                let only_full: Vec<&State> = if zeros_to_eof { acceptable.clone() } else { vec![&full] };
                 let r2 = std::panic::catch_unwind(std::panic::AssertUnwindSafe(|| {
                     rt.block_on(async {
                         let t = match strict.open(&work) {
@@ -462,13 +485,13 @@ pub fn run(a: &Args) -> i32 {
                             *verdicts.entry(v.clone()).or_insert(0) += 1;
                             let job = &part[ji.min(part.len() - 1)];
                             let fk = job.file.split('/').next().unwrap_or("?");
-                            classes.insert(format!("{}/{}/{}", fk, ["truncate", "byte", "bit"][job.kind.min(2) as usize], v));
+                            classes.insert(format!("{}/{}/{}", fk, ["truncate", "byte", "bit", "zeros"][job.kind.min(3) as usize], v));
                             if v == "wrong_data" || v == "panic" {
                                 let n = reported.entry(format!("{}:{}", v, fk)).or_insert(0);
                                 *n += 1;
                                 if *n <= 2 {
                                     run.violation(
-                                        &format!("[{}] store {} ({}), {} of {} at offset {}{}: {} ({})", v, si, store_cfg(seed).sig(), ["truncation", "byte flip", "bit flip"][job.kind.min(2) as usize], job.file, job.at, if job.kind == 2 { format!(" bit {}", job.bit) } else { String::new() }, j["what"].as_str().unwrap_or(""), j["phase"].as_str().unwrap_or("")),
+                                        &format!("[{}] store {} ({}), {} of {} at offset {}{}: {} ({})", v, si, store_cfg(seed).sig(), ["truncation", "byte flip", "bit flip", "zeroed range"][job.kind.min(3) as usize], job.file, job.at, if job.kind == 2 { format!(" bit {}", job.bit) } else { String::new() }, j["what"].as_str().unwrap_or(""), j["phase"].as_str().unwrap_or("")),
                                         json!({"engine": "c16", "store_seed": seed, "job": job_json(job)}),
                                     );
                                 }
@@ -498,7 +521,7 @@ pub fn run(a: &Args) -> i32 {
                 *n += 1;
                 if *n <= 3 {
                     run.violation(
-                        &format!("[process_died] store {}: the verifier process died ({:?}) while reading a copy with {} of {} at offset {}", si, status, ["truncation", "byte flip", "bit flip"][job.kind.min(2) as usize], job.file, job.at),
+                        &format!("[process_died] store {}: the verifier process died ({:?}) while reading a copy with {} of {} at offset {}", si, status, ["truncation", "byte flip", "bit flip", "zeroed range"][job.kind.min(3) as usize], job.file, job.at),
                         json!({"engine": "c16", "store_seed": seed, "job": job_json(job)}),
                     );
                 }
@@ -520,7 +543,7 @@ pub fn run(a: &Args) -> i32 {
         evaluations,
         classes.len() as u64,
         a.tier.pick(12, 16),
-        "one evaluation = one altered copy of a database (one bit or one byte of one file changed, or a table file cut) opened by the real code in a verifier subprocess: every key read, complete forward and backward scan, then flush + 3 compaction rounds and the same reads again; every read that succeeds must return the written data (for commit-log alterations: of an admissible commit prefix), anything else must be an error; a panic, a dead verifier process or wrong data is a violation, a silent verifier is killed after 120 s and counted inconclusive; distinct = distinct (file kind, alteration kind, outcome) triples",
+        "one evaluation = one altered copy of a database (one bit or one byte of one file changed, a range of 64 B .. 32 KiB of one file overwritten with zeros, or a table file cut) opened by the real code in a verifier subprocess: every key read, complete forward and backward scan, then flush + 3 compaction rounds and the same reads again; every read that succeeds must return the written data (for commit-log alterations: of an admissible commit prefix), anything else must be an error; a panic, a dead verifier process or wrong data is a violation, a silent verifier is killed after 120 s and counted inconclusive; distinct = distinct (file kind, alteration kind, outcome) triples",
         samples,
     )
 }
